@@ -211,6 +211,17 @@ func (c *FeeController) executeAction(
 	fees []actiontypes.RecipientAmount,
 ) error {
 	for _, fee := range fees {
+		// NOTE: the keeper level send does not enforce the list of addresses blocked from
+		// receiving funds as the bank message server does. A fee paid to a blocked module
+		// account which does not exist yet (e.g. the dust collector) would create a base
+		// account at its address, and every later access to the module account panics.
+		if c.BankKeeper.BlockedAddr(fee.Recipient) {
+			return sdkerrors.ErrUnauthorized.Wrapf(
+				"%s is not allowed to receive funds",
+				fee.Recipient,
+			)
+		}
+
 		err := c.BankKeeper.SendCoins(ctx, core.ModuleAddress, fee.Recipient, fee.Amount)
 		if err != nil {
 			return err
